@@ -94,6 +94,15 @@ def corpus_defs(tier):
         _mc({'From': 0, 'To': 60000 if q else 2932896, 'Stride': 1}, module='MCMeta', invariants=('RoundTrip', 'Monotone'), properties=()),
     ] + ([_mc({'From': 0, 'To': 2932896, 'Stride': 97}, module='MCMeta', invariants=('RoundTrip',), properties=())] if q else []),
         rand=[dict(gen='meta', n=0, rel=None, facets=None)])
+    # --- codeccfg: first key frames generated from the bitstream grammars -------------------------
+    FR = {'bytes': True, 'timing': False, 'tree': False, 'raw': True}
+    def av1(sections, lite):
+        return _mc({'Sections': sections, 'Lite': 'TRUE' if lite else 'FALSE'}, module='MCAv1Seq', invariants=('RoundTrip', 'FramingOK'),
+                   properties=(), facets=FR, rel='none', workers=8)
+    d['codeccfg'] = dict(trace='TraceMuxide', transform='av1key', mc=[
+        av1('{"color", "tools"}', True),
+        av1('{"operating"}', q),
+    ], rand=[dict(gen='vp9hdr', n=0, rel='none', facets=FR), dict(gen='nallist', n=0, rel='none', facets=FR)])
     return d
 
 
@@ -177,6 +186,13 @@ def run(ctx, name, cdir):
         res['mc_generated'] += pr['generated']
         res['behaviours'] += len(pr['replay'])
         for r in pr['replay']:
+            if d.get('transform') == 'av1key':
+                o = json.loads(r)
+                cfg = gen.base_cfg('av1', 'none')
+                calls = [{'op': 'wv', 'pts': gen.fin(0), 'data': o['data'], 'key': True},
+                         {'op': 'wv', 'pts': gen.fin(9000), 'data': [0x12, 0x00, 0x32, 0x03, 0x30, 0x21, 0x22], 'key': False},
+                         {'op': 'fin', 'how': 'in_place_stats'}]
+                r = json.dumps({'cfg': cfg, 'calls': calls, 'expected_by_generator': o['exp']})
             lines.append(_set_line(r, m['rel'], m['facets']))
     if d.get('dedupe'):
         seen = set()
